@@ -66,8 +66,15 @@ def shard(binpath, seed, sh, n):
                 auth = rng.sample(table_ok, min(len(table_ok), thr + rng.choice([0, 1])))
             else:
                 auth = [k for k in pool if rng.random() < 0.5]
-            steps.append(scen.mk_step(name, thr, [W.kid(k) for k in auth], [], [["ALLOW", "*"]], [["ALLOW", "*"]]))
-            plan.append({"name": name, "threshold": thr, "auth": auth})
+            ids = [W.kid(k) for k in auth]
+            repeated = False
+            if ids and not clean_positive and rng.random() < 0.3:
+                # the list of authorised key ids may name a key more than once: still one key
+                ids += [rng.choice(ids) for _ in range(rng.choice([1, 2, 3]))]
+                rng.shuffle(ids)
+                repeated = True
+            steps.append(scen.mk_step(name, thr, ids, [], [["ALLOW", "*"]], [["ALLOW", "*"]]))
+            plan.append({"name": name, "threshold": thr, "auth": auth, "repeated": repeated})
         layout = scen.mk_layout(W, table, steps, [])
         wk = None
         if weird and not clean_positive and rng.random() < 0.3:
@@ -207,6 +214,7 @@ def shard(binpath, seed, sh, n):
                 short.append({"step": p["name"], "count": c, "threshold": p["threshold"], "states": sts, "why": why})
         meta = {"expect": "reject" if short else "accept", "short": short, "clean": sc["clean"],
                 "thresholds": [p["threshold"] for p in sc["plan"]],
+                "repeated": any(p.get("repeated") for p in sc["plan"]),
                 "all_states": sorted({s for ps in per_step.values() for s in ps["states"].values()})}
         cases.append(scen.verify_case(lw, [[W.kid("ed0"), W.pub("ed0")]], files, meta=meta))
     obs = common.run_batch(binpath, cases)
@@ -220,6 +228,8 @@ def shard(binpath, seed, sh, n):
         cls += ["threshold:%d" % t for t in set(m["thresholds"])]
         if m["clean"] and ok:
             cls.append("positive_control_accepted")
+        if m.get("repeated"):
+            cls.append("authorised_list_names_a_key_twice:" + m["expect"])
         decided_by_auth = any("(unauth)" in s for sh_ in m["short"] for s in sh_["states"].values())
         if decided_by_auth:
             cls.append("decided_by_authorisation_rule")
@@ -340,7 +350,7 @@ def main(ctx):
              "outsider, empty sub-layout, unsigned}; 25% exact-threshold positive controls; non-trivial = link "
              "directory not empty; distinct by SHA-256 of (layout, directory)",
         assumptions=["ground truth of who validly signed what is by construction"],
-        required=["crowd:authorised:one_short_plus_outsiders", "crowd:authorised:exactly_threshold", "crowd:accepted", "crowd:rejected", "positive_control_accepted", "expect:reject", "observed:reject", "state:valid(unauth)", "state:misfiled",
+        required=["authorised_list_names_a_key_twice:reject", "crowd:authorised:one_short_plus_outsiders", "crowd:authorised:exactly_threshold", "crowd:accepted", "crowd:rejected", "positive_control_accepted", "expect:reject", "observed:reject", "state:valid(unauth)", "state:misfiled",
                   "state:flipped", "state:edited", "state:double", "state:cosigned_broken_own", "state:entry_under_unknown_scheme_key", "state:odd_file_name", "state:prefix_collision:control", "state:twin:genuine", "state:twin:rewritten_after_signing", "state:prefix_collision:link_by_the_other_steps_functionary",
                   "decided_by_authorisation_rule", "threshold:0",
                   "threshold:2", "threshold:3"],
